@@ -453,3 +453,36 @@ Proof.
   exact (proj1 (c03_mutating_documented pa h Ha Hh B0 Hl Hs Hwf)).
 Qed.
 Print Assumptions C03_mutating_transparent_documented.
+
+(* ------------------------------------------------------------------ *)
+(** ** the layering of the constructors New / NewWithFS
+    [ncfg q = mkConfig None [q] q]: HiddenFS directly over the OS filesystem
+    (no PrefixFS), the backup location [q] - an absolute cleaned path other
+    than "/" - hidden from the base and the root of the backup filesystem.
+    The base view [V0H q] (Spec/ViewRoot.v) is the WHOLE filesystem except the
+    location and what lies below it; it shows link targets as stored ([tn_0],
+    the identity: without PrefixFS nothing cleans them).  The root "/" is a
+    proper ancestor of the location ([anc_h q]): it cannot be removed (EBUSY)
+    or renamed.  Proofs/LawsNew.v. *)
+From BFS Require Import Spec.ViewHidden Spec.ViewRoot Proofs.LawsNew.
+
+Theorem C03_mutating_new : forall q,
+  hidden_ok q ->
+  forall B0, links_ok tn_0 clean (acc_0 q) (acc_p q) B0 -> all_small B0 -> swf B0 ->
+  c03_mutating_stmt (cfg_base (ncfg q)) (cfg_backup (ncfg q)) (V0H q) (Vp q) B0.
+Proof. exact c03_mutating_new. Qed.
+Print Assumptions C03_mutating_new.
+
+Theorem C03_mutating_transparent_new : forall q, hidden_ok q ->
+  forall B0, links_ok tn_0 clean (acc_0 q) (acc_p q) B0 -> all_small B0 -> swf B0 ->
+  forall o w, Inv (V0H q) (Vp q) B0 w -> covered (V0H q) o w -> mut1 o ->
+  exists w2 r w',
+    V0H q w2 = V0H q w /\ w_crash w2 = w_crash w /\ w_faults w2 = w_faults w /\
+    Inv (V0H q) (Vp q) B0 w2 /\ infos_ext w w2 (cands (op_name o)) /\
+    step (cfg_base (ncfg q)) (cfg_backup (ncfg q)) o w = (r, w') /\ r <> MHalt /\
+    swf (V0H q w') /\ store_eqv_except (op_frame o) (V0H q w') (V0H q w) /\
+    same_rest (Vp q) w2 w' /\
+    (((exists e, r = MErr e) /\ w' = w2 /\ ~ all_dirs (V0H q) w (op_name o)) \/
+     step_direct (cfg_base (ncfg q)) o w2 = (r, w')).
+Proof. exact c03_mutating_transparent_new. Qed.
+Print Assumptions C03_mutating_transparent_new.
